@@ -36,11 +36,35 @@ var (
 	verifC18StatusWrote int
 )
 
+// http.MaxBytesReader as its contract: at most n bytes are delivered; when the body
+// holds more, the read ends in a *http.MaxBytesError
+type verifC18MaxBytes struct {
+	r io.Reader
+	n int64
+}
+
+func (m *verifC18MaxBytes) Read(p []byte) (int, error) { panic("read through the io.ReadAll stub only") }
+func (m *verifC18MaxBytes) Close() error               { return nil }
+func verifC18MaxBytesReader(w http.ResponseWriter, r io.ReadCloser, n int64) io.ReadCloser {
+	return &verifC18MaxBytes{r: r, n: n}
+}
+
 func verifC18ReadAll(r io.Reader) ([]byte, error) {
 	limit := int64(-1)
 	if lr, ok := r.(*io.LimitedReader); ok {
 		limit = lr.N
 		r = lr.R
+	}
+	if mb, ok := r.(*verifC18MaxBytes); ok {
+		if body, isBody := mb.r.(*verifC18Body); isBody {
+			verifC18RawAsked = mb.n
+			if body.avail > mb.n {
+				return verifOpaqueBytes(int(mb.n)), &http.MaxBytesError{Limit: mb.n}
+			}
+			return verifOpaqueBytes(int(body.avail)), nil
+		}
+		verifUnmodelled("MaxBytesReader over a reader the model does not know")
+		return nil, nil
 	}
 	var avail int64
 	switch src := r.(type) {
@@ -58,7 +82,8 @@ func verifC18ReadAll(r io.Reader) ([]byte, error) {
 		}
 		verifC18DecReads++
 	default:
-		panic("verifC18ReadAll: unexpected reader")
+		verifUnmodelled("io.ReadAll over a reader the model does not know")
+		return nil, nil
 	}
 	n := avail
 	if limit >= 0 && limit < n {
@@ -134,6 +159,7 @@ const verifC18CapMax = 1 << 40
 // every combination of caps and sizes.
 //
 //verif:stub io.ReadAll = verifC18ReadAll
+//verif:stub net/http.MaxBytesReader = verifC18MaxBytesReader
 //verif:stub (*github.com/klauspost/compress/zstd.Header).Decode = verifC18HeaderDecode
 //verif:stub github.com/klauspost/compress/zstd.NewReader = verifC18ZstdNewReader
 //verif:stub github.com/klauspost/compress/zstd.WithDecoderMaxMemory = verifC18WithMaxMem
@@ -193,7 +219,7 @@ func verifH_C18_read_body() {
 		rawCap = B
 	}
 	if rawCap > 0 {
-		verifAssert(verifC18RawAsked == rawCap+1, "at most one byte past the raw cap is read from the connection")
+		verifAssert(verifC18RawAsked >= rawCap && verifC18RawAsked <= rawCap+1, "at most one byte past the raw cap is read from the connection (and never fewer than the cap)")
 	}
 	if rawCap > 0 && L > rawCap {
 		verifReach("raw-over")
@@ -253,6 +279,7 @@ func verifH_C18_read_body() {
 // never returns (or requests) more than its per-coding limit.
 //
 //verif:stub io.ReadAll = verifC18ReadAll
+//verif:stub net/http.MaxBytesReader = verifC18MaxBytesReader
 //verif:stub (*github.com/klauspost/compress/zstd.Header).Decode = verifC18HeaderDecode
 //verif:stub github.com/klauspost/compress/zstd.NewReader = verifC18ZstdNewReader
 //verif:stub github.com/klauspost/compress/zstd.WithDecoderMaxMemory = verifC18WithMaxMem
